@@ -136,7 +136,9 @@ def judge(ctx, j, res, exp):
     d, g = res.get('direct_exc', ''), res.get('generated_exc', '')
     wrong_value = (isinstance(res.get('direct'), float) and not ok(res['direct'])) or (isinstance(res.get('generated'), float) and not ok(res['generated']))
     if not wrong_value:
-        if (d.startswith('NotNumeric') or not d) and ("'Add' object has no attribute 'shape'" in g or "'Mul' object has no attribute 'shape'" in g) and (d or ok(res.get('direct'))) and ctx.open_finding('D53'):
+        sympy_left = any(f"'{k}' object has no attribute 'shape'" in g for k in ('Add', 'Mul', 'int', 'Zero', 'One', 'NegativeOne', 'Integer', 'Rational', 'Float', 'Half')) \
+            or 'Cannot convert expression to float' in g
+        if (d.startswith('NotNumeric') or not d) and sympy_left and (d or ok(res.get('direct'))) and ctx.open_finding('D53'):
             ctx.known_hit('D53', dict(expr=res['expr'], observed=res)); return 'known'
         if (d.startswith('NameError') or (not d and ok(res.get('direct')))) and g.startswith('NameError') and ctx.open_finding('D29') and _const_call(j.get('tree')):
             ctx.known_hit('D29', dict(expr=res['expr'], observed=res)); return 'known'
